@@ -114,7 +114,24 @@ def c_measure_forms(ctx, args):
     return None
 
 
-CHECKS = {'measure': c_measure, 'measure_forms': c_measure_forms}
+def c_coin_fair(ctx, args):
+    """an undetermined outcome is a fresh fair coin at every measurement: 64 measurements of the same observable on fresh copies of the same state must show BOTH
+    outcomes (a fair coin fails this with probability 2^-63); every rank, pivots among active and standby rows alike"""
+    t, o, seed = args
+    NP.seed_numba(seed)
+    seen = set()
+    for _ in range(64):
+        s = NP.STATE(t)
+        out, lp = s.measure(NP.PL([o]))
+        if float(lp) != -1.0:
+            return None               # determined for this state: nothing to flip
+        seen.add(int(np.atleast_1d(out)[0]))
+        if len(seen) == 2:
+            return None
+    return {'kind': 'oracle', 'where': 'np:an undetermined outcome came out the same 64 times in a row', 'observed': sorted(seen), 'expected': 'both outcomes (probability 1/2 each)', 'tags': ['coin']}
+
+
+CHECKS = {'coin_fair': c_coin_fair, 'measure': c_measure, 'measure_forms': c_measure_forms}
 
 
 def all_tableaux_1q():
@@ -176,3 +193,10 @@ def run(ctx):
         t = gen.rtableau(rng, ctx.model, n)
         u = gen.rtableau(rng, ctx.model, n)
         do(ctx, 'measure_forms', [t, u, rng.randrange(10 ** 6)], nontrivial=('f', it) if t[1] != u[1] else None)
+    # fairness of the coin, state by state: single Z / X / random observables on states of every rank (maximally mixed and half-mixed ones included)
+    for it in range(int(60 * B)):
+        n = rng.randint(1, 4)
+        t = gen.rtableau(rng, ctx.model, n, depth=rng.choice([0, 0, 1, None]))
+        q = rng.randrange(n)
+        o = rng.choice([[[1 if j == 2 * q + 1 else 0 for j in range(2 * n)], 0], [[1 if j == 2 * q else 0 for j in range(2 * n)], 0], gen.rpauli(rng, n, herm=True, nonzero=True)])
+        do(ctx, 'coin_fair', [t, o, rng.randrange(10 ** 6)], nontrivial=('cf', it) if t[1] > 0 else None)
